@@ -4,9 +4,9 @@
     round / dawson / erfi / inv_erf / vector_spherical_harmonics_* are the hand-written models of C17_Model.v
     (C-tie).  Not theorems (see checks/C17.py LEVEL_TEXT): Dawson's 2e-7 and Erfi's 1e-6 accuracy for all x
     (S3 certified samples + S4), conjugation symmetry of boost's Y_lm (S4). *)
-From Coq Require Import Reals ZArith List Bool.
+From Coq Require Import Reals ZArith List Bool Lra Lia.
 From Coquelicot Require Import Coquelicot.
-From LP Require Import Num NumR OrdLaws Gen_C17_Formulas C17_Model C17_Defs C17_Proofs C17_Proofs_Round C17_Proofs_InvErf C17_Proofs_VSH.
+From LP Require Import Num NumR OrdLaws Gen_C17_Formulas C17_Model C17_Defs C17_Proofs C17_Proofs_Round C17_Proofs_InvErf C17_Proofs_VSH C17_Proofs_Hist C17_Proofs_Series C17_Proofs_Conj.
 Import ListNotations.
 Local Open Scope R_scope.
 
@@ -221,3 +221,127 @@ Theorem C17_psi_sum_relation (Y : Z -> Z -> R * R) (i l m : Z) (d u : R * R) : (
   vsh_sum ROps (g_VSH_Psi_Component ROps) Y i l m = Ok (axpy (axpy (0, 0) (IZR (l + 1)) d) (- IZR l) u).
 Proof. exact (psi_sum_relation Y i l m d u). Qed.
 Print Assumptions C17_psi_sum_relation.
+
+(** ** "Dawson_Integral is ... accurate to 2e-7 absolutely": the small-argument branch, for EVERY real |x| < 0.2
+    (the branch the source takes there).  The truncated series P satisfies P' + 2 x P = 1 - (16/105) x^8, hence
+    P(x) - D(x) = -exp(-x^2) int_0^x exp(t^2) (16/105) t^8 dt and |P(x) - D(x)| <= (16/945) |x|^9 <= 8.7e-9.
+    D = dawson_def is Dawson's integral int_0^x exp(t^2 - x^2) dt.  (The large-argument branch stays S3/S4.) *)
+Theorem C17_dawson_series_accuracy (x : R) : Rabs x < 1 / 5 ->
+  Rabs (dawson ROps x - dawson_def x) <= 16 / 945 * Rabs x ^ 9 /\
+  Rabs (dawson ROps x - dawson_def x) <= 2 / 10000000.
+Proof. exact (fun H => conj (dawson_series_error x H) (dawson_series_accuracy x H)). Qed.
+Print Assumptions C17_dawson_series_accuracy.
+Example C17_dawson_series_accuracy_nonvacuous : Rabs (1 / 10) < 1 / 5.
+Proof. rewrite Rabs_pos_eq; lra. Qed.
+
+(** "Erfi [is accurate] to 1e-6 relatively": for EVERY real |x| < 0.2 (there Erfi goes through the series branch of Dawson_Integral);
+    erfi_def x = 2/sqrt(pi) int_0^x exp(t^2) dt.  (|x| >= 0.2 stays S3/S4.) *)
+Theorem C17_erfi_series_accuracy (x : R) : Rabs x < 1 / 5 ->
+  Rabs (erfi ROps PI x - erfi_def x) <= 1 / 1000000 * Rabs (erfi_def x).
+Proof. exact (erfi_series_accuracy x). Qed.
+Print Assumptions C17_erfi_series_accuracy.
+
+(** ** the static table of Dawson_Integral ("static c[NMAX] ... rebuilt on every call") as explicit state, any number type
+    (doubles included): after ANY history of Dawson_Integral calls, started from ANY table of NMAX = 6 entries, every answer is the
+    pure function's; the table keeps its size. *)
+Theorem C17_dawson_history_independent {T} (Ops : NumOps T) (c xs : list T) : length c = 6%nat ->
+  snd (dawson_run Ops c xs) = map (dawson Ops) xs /\ length (fst (dawson_run Ops c xs)) = 6%nat.
+Proof. exact (dawson_history_independent Ops c xs). Qed.
+Print Assumptions C17_dawson_history_independent.
+Example C17_dawson_history_nonvacuous : length (daw_table0 ROps) = 6%nat /\ dawson_run ROps (daw_table0 ROps) [1; 1 / 10] <> (daw_table0 ROps, []).
+Proof. split; [reflexivity|]. unfold dawson_run. cbn [fold_left]. intros H. apply (f_equal (fun p => length (snd p))) in H. cbn in H. discriminate H. Qed.
+
+(** the same for mixed histories of Dawson_Integral (false) and Erfi (true) requests — Erfi goes through Dawson_Integral *)
+Theorem C17_special_history_independent {T} (Ops : NumOps T) (pi : T) (c : list T) (qs : list (bool * T)) : length c = 6%nat ->
+  snd (special_run Ops pi c qs) = map (fun q : bool * T => if fst q then erfi Ops pi (snd q) else dawson Ops (snd q)) qs /\
+  length (fst (special_run Ops pi c qs)) = 6%nat.
+Proof. exact (special_history_independent Ops pi c qs). Qed.
+Print Assumptions C17_special_history_independent.
+
+(** one call from any table: the value, and what the table is afterwards (unchanged by the series branch, the six exponentials otherwise) *)
+Theorem C17_dawson_call_from_any_table {T} (Ops : NumOps T) (c : list T) (x : T) : length c = 6%nat ->
+  snd (dawson_st Ops c x) = dawson Ops x /\
+  fst (dawson_st Ops c x) = if nltb Ops (nabs Ops x) (ndec Ops 1 5) then c else map (daw_c Ops) [0; 1; 2; 3; 4; 5]%Z.
+Proof. exact (fun H => conj (dawson_st_value Ops c x H) (dawson_st_table Ops c x H)). Qed.
+Print Assumptions C17_dawson_call_from_any_table.
+
+(** ** "Round (3 overloads)": the Vector and Matrix overloads, any number type: they return [l'] exactly when every entry is
+    the scalar Round of the corresponding entry (same shape) *)
+Theorem C17_round_containers_iff {T} (Ops : NumOps T) (l l' : list T) (m m' : list (list T)) (d : Z) :
+  (round_list Ops l d = Ok l' <-> Forall2 (fun x r => round Ops x d = Ok r) l l') /\
+  (round_table Ops m d = Ok m' <-> Forall2 (Forall2 (fun x r => round Ops x d = Ok r)) m m').
+Proof. exact (conj (round_list_iff Ops l l' d) (round_table_iff Ops m m' d)). Qed.
+Print Assumptions C17_round_containers_iff.
+
+(** they never terminate the process for digits <= 7, and for digits > 7 exactly when there is an entry to round *)
+Theorem C17_round_containers_exit {T} (Ops : NumOps T) (l : list T) (m : list (list T)) (d : Z) :
+  ((d <= 7)%Z -> (exists l', round_list Ops l d = Ok l') /\ (exists m', round_table Ops m d = Ok m')) /\
+  ((7 < d)%Z ->
+     round_list Ops l d = (if match l with [] => true | _ => false end then Ok [] else Exit) /\
+     round_table Ops m d = (if forallb (fun row => match row with [] => true | _ => false end) m then Ok (map (fun _ => []) m) else Exit)).
+Proof.
+  exact (conj (fun H => conj (round_list_total Ops l d H) (round_table_total Ops m d H))
+              (fun H => conj (round_list_exit Ops l d H) (round_table_exit Ops m d H))).
+Qed.
+Print Assumptions C17_round_containers_exit.
+
+(** odd, idempotent, within half a unit (zeros stay zeros), for vectors and matrices of any shape; monotone entry by entry *)
+Theorem C17_round_containers_odd (l l' : list R) (m m' : list (list R)) (d : Z) :
+  (round_list ROps l d = Ok l' -> round_list ROps (map Ropp l) d = Ok (map Ropp l')) /\
+  (round_table ROps m d = Ok m' -> round_table ROps (map (map Ropp) m) d = Ok (map (map Ropp) m')).
+Proof. exact (conj (round_list_odd l l' d) (round_table_odd m m' d)). Qed.
+Print Assumptions C17_round_containers_odd.
+
+Theorem C17_round_containers_idempotent (l l' : list R) (m m' : list (list R)) (d : Z) : (1 <= d <= 7)%Z ->
+  (round_list ROps l d = Ok l' -> round_list ROps l' d = Ok l') /\
+  (round_table ROps m d = Ok m' -> round_table ROps m' d = Ok m').
+Proof. exact (fun H => conj (round_list_idempotent l l' d H) (round_table_idempotent m m' d H)). Qed.
+Print Assumptions C17_round_containers_idempotent.
+
+Theorem C17_round_containers_half_unit (l l' : list R) (m m' : list (list R)) (d : Z) : (1 <= d <= 7)%Z ->
+  (round_list ROps l d = Ok l' -> Forall2 (within_half_unit d) l l') /\
+  (round_table ROps m d = Ok m' -> Forall2 (Forall2 (within_half_unit d)) m m').
+Proof. exact (fun H => conj (round_list_half_unit l l' d H) (round_table_half_unit m m' d H)). Qed.
+Print Assumptions C17_round_containers_half_unit.
+
+Theorem C17_round_vector_monotone (l1 l2 r1 r2 : list R) (d : Z) : (1 <= d <= 7)%Z -> Forall2 Rle l1 l2 ->
+  round_list ROps l1 d = Ok r1 -> round_list ROps l2 d = Ok r2 -> Forall2 Rle r1 r2.
+Proof. exact (round_list_monotone l1 l2 r1 r2 d). Qed.
+Print Assumptions C17_round_vector_monotone.
+Example C17_round_containers_nonvacuous :
+  (exists l', round_list ROps [1; - (5 / 2); 0] 3 = Ok l') /\ (exists m', round_table ROps [[1; 2]; [- (3)]] 3 = Ok m') /\ Forall2 Rle [1; 2] [1; 3].
+Proof.
+  split; [apply round_list_total; lia|]. split; [apply round_table_total; lia|].
+  repeat constructor; lra.
+Qed.
+
+(** ** Relative_Difference over R: symmetric, in [0, 2], and zero exactly for equal arguments *)
+Theorem C17_relative_difference_spec (a b : R) :
+  g_Relative_Difference ROps a b = g_Relative_Difference ROps b a /\
+  0 <= g_Relative_Difference ROps a b <= 2 /\
+  (g_Relative_Difference ROps a b = 0 <-> a = b).
+Proof. exact (conj (reldiff_sym a b) (conj (conj (reldiff_nonneg a b) (reldiff_le_2 a b)) (reldiff_zero_iff a b))). Qed.
+Print Assumptions C17_relative_difference_spec.
+
+(** ** "Y_{l,-m} equals (-1)^m times the conjugate of Y_{l,m}" carried from the scalar harmonics to BOTH vector harmonics, for all
+    l >= 0 and |m| <= l: if the scalar harmonics [Y] (boost's in the library) have the symmetry at the direction in question, the
+    summation loops over the translated coefficient tables return Vector_Y_{l,-m} = (-1)^m conj(Vector_Y_{l,m}) and
+    Vector_Psi_{l,-m} = (-1)^m conj(Vector_Psi_{l,m}), component by component.  [mirror m z] = (-1)^m conj z. *)
+Theorem C17_vsh_conjugation (Y : Z -> Z -> R * R) :
+  (forall lh mh, Y lh (- mh)%Z = cscale (if Z.even mh then 1 else -1) (fst (Y lh mh), - snd (Y lh mh))) ->
+  forall l m, (0 <= l)%Z -> (Z.abs m <= l)%Z ->
+  let M := fun z : R * R => cscale (if Z.even m then 1 else -1) (fst z, - snd z) in
+  vector_spherical_harmonics_Y ROps Y l (- m) = rmap (map M) (vector_spherical_harmonics_Y ROps Y l m) /\
+  vector_spherical_harmonics_Psi ROps Y l (- m) = rmap (map M) (vector_spherical_harmonics_Psi ROps Y l m).
+Proof. exact (vsh_conjugation Y). Qed.
+Print Assumptions C17_vsh_conjugation.
+(** the premise is satisfiable by a non-zero family: Y_{l,0} = 1, all other orders 0 *)
+Example C17_vsh_conjugation_nonvacuous : let Y := fun (_ mh : Z) => if (mh =? 0)%Z then (1, 0) else (0, 0) in
+  (forall lh mh, Y lh (- mh)%Z = cscale (if Z.even mh then 1 else -1) (fst (Y lh mh), - snd (Y lh mh))) /\ Y 3%Z 0%Z <> (0, 0).
+Proof.
+  cbn zeta. split.
+  - intros _ mh. destruct (Z.eqb_spec mh 0) as [->|N].
+    + cbn. unfold cscale. cbn. f_equal; ring.
+    + replace (- mh =? 0)%Z with false by (symmetry; apply Z.eqb_neq; lia). unfold cscale. cbn. destruct (Z.even mh); f_equal; ring.
+  - cbn. intros H. injection H as H. lra.
+Qed.
